@@ -8,10 +8,11 @@
 (* covers all thresholds / all counted trees as targets).                    *)
 (*   Observe = FALSE: only the multisets (the domain replayed on real code). *)
 (*   ObserveFrom: observations start once that many trees are counted.       *)
+(*   TrackDist = FALSE (domain dumps only): the distribution is not computed.*)
 (*   CacheChecksCount = FALSE: a cache that is not invalidated when trees    *)
 (*   are added - TLC must find CacheFresh violated (non-vacuity).            *)
 EXTENDS SplitDist
-CONSTANTS N, MaxTrees, NW, NT, Observe, ObserveFrom, CacheChecksCount
+CONSTANTS N, MaxTrees, NW, NT, Observe, ObserveFrom, CacheChecksCount, TrackDist
 VARIABLES rooted, ms, d, cache, out
 vars == <<rooted, ms, d, cache, out>>
 
@@ -57,7 +58,7 @@ CountTree(H, wi) ==
     /\ LET it == Item(H, wi) IN
        /\ (IF ms = <<>> THEN TRUE ELSE LeqItem(ms[Len(ms)], it))
        /\ ms' = Append(ms, it)
-       /\ d' = CountAbs(d, AbsItem(it), AllW[wi], TRUE, FALSE)
+       /\ d' = IF TrackDist THEN CountAbs(d, AbsItem(it), AllW[wi], TRUE, FALSE) ELSE d
     /\ out' = [kind |-> "none"]
     /\ UNCHANGED <<rooted, cache>>
 \* update() from a distribution that counted one tree
@@ -66,7 +67,7 @@ Update(H, wi) ==
     /\ LET it == Item(H, wi) IN
        /\ (IF ms = <<>> THEN TRUE ELSE LeqItem(ms[Len(ms)], it))
        /\ ms' = Append(ms, it)
-       /\ d' = UpdateOp(d, CountAbs(EmptyDist, AbsItem(it), AllW[wi], TRUE, FALSE))
+       /\ d' = IF TrackDist THEN UpdateOp(d, CountAbs(EmptyDist, AbsItem(it), AllW[wi], TRUE, FALSE)) ELSE d
     /\ out' = [kind |-> "none"]
     /\ UNCHANGED <<rooted, cache>>
 Freq ==
